@@ -8,4 +8,6 @@ INVARIANT Acyclic
 INVARIANT WellFormed
 INVARIANT ExecSafe
 INVARIANT ExecConfluent
+INVARIANT SinkCollectsAll
+INVARIANT UpstreamIrreflexive
 CHECK_DEADLOCK FALSE
